@@ -4,6 +4,8 @@ import PQ.Lemmas.Thrift
 import PQ.Model.Reader
 import PQ.Lemmas.Plain
 import PQ.Lemmas.PageRT
+import PQ.Lemmas.ReaderRT
+import PQ.Lemmas.SchemaTree
 /-!
 # C01 — write-then-read returns exactly the records that were added
 
@@ -15,9 +17,14 @@ inverted by the corresponding layer of the reader / of the specification):
 * headers:  `PQ.Thrift.decVal_enc` — page headers and the footer decode to what was encoded
 * values / pages: `PQ/Lemmas/Plain.lean`, `PQ/Lemmas/PageRT.lean` (page-level composition)
 
-The whole-file composition `readAll (run ops) = records` is **not yet a single theorem**
-(`roundtrip_partial` below states what is composed so far); the executable writer and reader
-models are compared with the implementation exactly on every run.
+`roundtrip` is the full statement over the model: for every struct shape (well-formed field forest),
+every history of Add/Write ending in Close, every page size ≥ 1 and every codec with a correct
+decompressor, the reader model applied to the bytes the writer model produced reports
+`Rows()` = the number of written records, `Next()` true exactly that many times, every `Scan`
+delivering exactly the record's per-column entries (hence, by `scan_is_projection`, the record's
+projection), and no error.  The executable writer and reader models are compared with the
+implementation exactly on every run.  The two aliasing clauses of the property are runtime facts no
+pure model exhibits (explored by the harness only: partial).
 -/
 namespace PQ.C01
 
@@ -53,5 +60,26 @@ theorem page_roundtrip (dc : Decomp) (k : Codec) (codec : Int) (c : Col) (es : P
             compressedLen := (pageBytes k c es).2.length, uncompressedLen := (pagePayload c es).length,
             stats := some (pageStatsFields c es) } :=
   PQ.specPage_pageBytes_codec dc k codec c es hwf hk pre rest
+
+/-- **C01, full statement over the model** (reader model ∘ writer model = identity on the written
+batches). `ColsResolve`: the joined column names are pairwise distinct (checkable by
+`colsResolve_of_check`); the other hypotheses are those of `PQ.C02.file_valid`. -/
+theorem roundtrip (dc : Decomp) (k : Codec) (ts : List FTree) (hwf : ∀ t ∈ ts, t.WF) (hsd : SiblingsDistinct ts)
+    (max : Nat) (body : List Op) (hmax : 1 ≤ max) (hcols : colsOf ts ≠ []) (hres : ColsResolve (colsOf ts))
+    (hbody : ∀ op ∈ body, op.isClose = false)
+    (hrec : ∀ r, Op.add r ∈ body → r.length = (colsOf ts).length ∧ ∀ x ∈ (colsOf ts).zipIdx, RecColOK x.1 (r.getD x.2 []))
+    (hdef : ∀ c ∈ colsOf ts, c.maxDef ≤ 15)
+    (hlen : ∀ b ∈ batches body, ∀ x ∈ (colsOf ts).zipIdx, (b.flatMap (·.getD x.2 [])).length + 8 ≤ 2 ^ 30)
+    (hcodec : ∀ raw, CodecOK dc k (k.id : Int) raw)
+    (hsize : (fileBytes (runWriter (colsOf ts) max k (body ++ [Op.close]))).length < 2 ^ 32) :
+    readAllEntries (colsOf ts) dc (fileBytes (runWriter (colsOf ts) max k (body ++ [Op.close]))) =
+      some (((((batches body).map List.length).sum : Nat) : Int),
+            (batches body).flatten.map (fun r => (List.range (colsOf ts).length).map fun i => r.getD i [])) := by
+  obtain ⟨se, h1, _, _, _⟩ := schema_valid ts hwf hsd
+  exact readAll_runWriter_records dc k (colsOf ts) max body hmax hcols hres hbody hrec hdef hlen hcodec hsize se h1
+
+/-- what `Scan` writes for a column whose entries are the striping of a projection is that projection -/
+theorem scan_is_projection (c : Col) (showP : (ts : List Rep) → Proj Bytes ts → String) (v : Proj Bytes c.reps) :
+    scanText c showP (stripeTop c.reps v) = showP c.reps v := PQ.scanText_stripe c showP v
 
 end PQ.C01
